@@ -12,7 +12,7 @@
    discipline (protocol_prefix_ok: every prefix = every crash instant); the
    model's own add / update programs follow it (C08_*_follows_protocol), and
    the check feeds the traces observed with strace to the same checker. *)
-From Whawty Require Import Bytes Record Store StoreTrace Crash Crash_proofs.
+From Whawty Require Import Bytes Record Store StoreTrace Crash Crash_proofs CrashX_proofs.
 Open Scope N_scope.
 
 Theorem C08_crash_safe_prefix : forall f reserve d0 evs c,
@@ -67,6 +67,50 @@ Proof. exact update_tmp_data. Qed.
 Print Assumptions C08_add_follows_protocol.
 Print Assumptions C08_update_new_content.
 
+(* ---- failing operations ----
+   The same guarantee for the discipline extended by the clean-up of an
+   operation that fails (protocol_prefix_x_ok: temp file and reservation are
+   removed again; an add that fails after the rename withdraws the record),
+   and the model's own add / update follow it for EVERY injected fault and
+   result. *)
+Theorem C08_crash_safe_prefix_x : forall f reserve d0 evs c,
+  base_quiescent d0 -> target_pre f reserve d0 -> tmp_fresh evs d0 ->
+  protocol_prefix_x_ok f reserve evs = true ->
+  crash_of (exec_events d0 evs) c ->
+  ( (reserve = true /\ crashed_file c f = None)
+    \/ (reserve = true /\ crashed_file c f = Some [])
+    \/ (reserve = false /\ crashed_file c f = vol_file d0 f)
+    \/ ((exists t, In (ERename (LTmpFile t) (LFile f)) evs) /\ crashed_file c f = Some (tmp_data evs)) )
+  /\ (forall g, g <> f -> crashed_file c g = vol_file d0 g).
+Proof. exact crash_safe_prefix_x. Qed.
+Print Assumptions C08_crash_safe_prefix_x.
+Theorem C08_kill_safe_prefix_x : forall f reserve d0 evs,
+  base_quiescent d0 -> target_pre f reserve d0 -> tmp_fresh evs d0 ->
+  protocol_prefix_x_ok f reserve evs = true ->
+  ( (reserve = true /\ vol_file (exec_events d0 evs) f = None)
+    \/ (reserve = true /\ vol_file (exec_events d0 evs) f = Some [])
+    \/ (reserve = false /\ vol_file (exec_events d0 evs) f = vol_file d0 f)
+    \/ ((exists t, In (ERename (LTmpFile t) (LFile f)) evs) /\ vol_file (exec_events d0 evs) f = Some (tmp_data evs)) )
+  /\ (forall g, g <> f -> vol_file (exec_events d0 evs) g = vol_file d0 g).
+Proof. exact kill_safe_prefix_x. Qed.
+Print Assumptions C08_kill_safe_prefix_x.
+Theorem C08_prefix_x_extends : forall f reserve evs,
+  protocol_prefix_ok f reserve evs = true -> protocol_prefix_x_ok f reserve evs = true.
+Proof. exact protocol_prefix_x_of_prefix. Qed.
+Theorem C08_prefix_x_closed : forall f reserve l1 l2,
+  protocol_prefix_x_ok f reserve (l1 ++ l2) = true -> protocol_prefix_x_ok f reserve l1 = true.
+Proof. exact protocol_prefix_x_closed. Qed.
+Theorem C08_add_follows_protocol_any_fault : forall kdf ft c d u pw adm o r s,
+  p_add kdf ft c d u pw adm o = (r, s) ->
+  protocol_prefix_x_ok (u ++ ext_of adm) true (events s) = true.
+Proof. exact add_follows_protocol_x. Qed.
+Theorem C08_update_follows_protocol_any_fault : forall kdf ft c d u pw o r s adm,
+  p_update kdf ft c d u pw o = (r, s) -> user_exists d u = ExYes adm ->
+  protocol_prefix_x_ok (u ++ ext_of adm) false (events s) = true.
+Proof. exact update_follows_protocol_x. Qed.
+Print Assumptions C08_add_follows_protocol_any_fault.
+Print Assumptions C08_update_follows_protocol_any_fault.
+
 Example C08_nonvacuous :
   protocol_complete_ok (str "bob.user") true
     [ECreate (LFile (str "bob.user")); EMkdir LTmpDir; ECreate (LTmpFile (str "t1"));
@@ -74,5 +118,12 @@ Example C08_nonvacuous :
      ERename (LTmpFile (str "t1")) (LFile (str "bob.user")); EFsync LBaseDir] = true /\
   protocol_prefix_ok (str "bob.user") true
     [ECreate (LFile (str "bob.user")); ECreate (LTmpFile (str "t1"));
-     ERename (LTmpFile (str "t1")) (LFile (str "bob.user"))] = false.
+     ERename (LTmpFile (str "t1")) (LFile (str "bob.user"))] = false /\
+  (* a failing add cleans up; an in-place rewrite of a live file is not accepted *)
+  protocol_prefix_x_ok (str "bob.user") true
+    [ECreate (LFile (str "bob.user")); ECreate (LTmpFile (str "t1")); EWrite (LTmpFile (str "t1")) (str "li");
+     EUnlink (LTmpFile (str "t1")); EUnlink (LFile (str "bob.user"))] = true /\
+  protocol_prefix_x_ok (str "bob.user") false
+    [ECreate (LTmpFile (str "t1")); EWrite (LTmpFile (str "t1")) (str "line"); EFsync (LTmpFile (str "t1"));
+     EWrite (LFile (str "bob.user")) (str "line")] = false.
 Proof. vm_compute. auto. Qed.
